@@ -26,6 +26,12 @@ def main():
     ids = args or sorted(d for d in os.listdir(SEEDED) if os.path.isdir(os.path.join(SEEDED, d)))
     props = props or claimed()
     results = {}
+    # the evidence files must describe the unchanged tree: keep them aside while the changed trees are checked
+    import shutil, tempfile
+    ev_dir = os.path.join(ROOT, 'evidence')
+    ev_backup = tempfile.mkdtemp(prefix='evidence_backup_')
+    if os.path.isdir(ev_dir):
+        shutil.copytree(ev_dir, os.path.join(ev_backup, 'evidence'))
     rc, out = sh(['git', '-C', '/repo', 'status', '--porcelain'])
     if out.strip():
         print('refusing: /repo has uncommitted changes'); sys.exit(2)
@@ -46,8 +52,12 @@ def main():
         finally:
             sh(['git', '-C', '/repo', 'checkout', '--', '.'])
     json.dump(results, open(os.path.join(SEEDED, 'results.json'), 'w'), indent=1)
-    # restore the harness build for the unchanged tree
+    # restore the harness build for the unchanged tree, and the evidence of the unchanged tree
     sh([os.path.join(ROOT, 'harness', 'build.sh')])
+    if os.path.isdir(os.path.join(ev_backup, 'evidence')):
+        shutil.rmtree(ev_dir, ignore_errors=True)
+        shutil.copytree(os.path.join(ev_backup, 'evidence'), ev_dir)
+    shutil.rmtree(ev_backup, ignore_errors=True)
 
 
 if __name__ == '__main__':
